@@ -113,6 +113,7 @@ func runC13(p *an.Prog, r *an.Run, tier string) {
 	checkOneTxn(p, r, "one-txn")
 	checkSingleStoreWiring(p, r)
 	checkKeySpacesKnown(p, r)
+	checkKeyOperandTypes(p, r)
 
 	// ---- propagate
 	fns := badgerPkgFuncs(p)
